@@ -5,7 +5,9 @@ Written against the normal form (VIEW = 'norm'): helpers that do not exist on th
 about loops, the items they visit and what is inserted / pushed for an item, not about adaptors or closures."""
 from .common import *
 from .feas import (check_feasibility_rule, origins, PathEval, const_operand, absent_inserts, error_propagates, result_kind,
-                   canon, whole, is_const, item_calls, enum_tests)
+                   canon, whole, is_const, item_calls, enum_tests,
+                   dominates_ok, dominates_sem, must_pass_sem, loop_must2 as loop_must, returned_struct)
+from .C05 import inherited_from
 
 INST = 'v1::Instance'; DV = 'v1::DecisionVariable'; CON = 'v1::Constraint'; RC = 'v1::RemovedConstraint'
 SC = 'v1::SampledConstraint'; EC = 'v1::EvaluatedConstraint'; SS = 'v1::SampleSet'; SDV = 'v1::SampledDecisionVariable'
@@ -54,7 +56,7 @@ def infeasible_only(ctx, body, c, fc, outer):
                 if ft is None or tt == ft: continue
                 branches += 1
                 if c.bb not in body.edge_region(sb, ft): continue
-                every = T.must_pass(body, ft, {il[1]}, {c.bb})
+                every = must_pass_sem(ctx, body, ft, {il[1]}, {c.bb})
                 vfalse = is_const(body, c.args[2], 'false') or canon(body, c.args[2]) == (root, fs)
                 keyok = kroot == item and kfs == fs[:-1] + (('tuple', '0'),)
                 return dict(precise=True, false=vfalse, only=every and keyok, why='')
@@ -69,10 +71,10 @@ def infeasible_only(ctx, body, c, fc, outer):
 
 def evaluate_samples_rules(ctx, body):
     R = 'C06.samples'
-    aggs = find_aggregates(body, SS)
-    if len(aggs) != 1:
-        ctx.bad(R + '/aggregate', 'ANCHOR', body.name, 'expected one SampleSet aggregate, found %d' % len(aggs)); return
-    sbi, ss = aggs[0]
+    sv = returned_struct(ctx, body, SS)
+    if sv is None:
+        ctx.bad(R + '/aggregate', 'ANCHOR', body.name, 'the SampleSet returned on success is not one recognisable value'); return
+    sbi, ss = sv.where, sv.st()
     cover(ctx, 'C06.cover/evaluate_samples', body, INST, exempt=('description', 'parameters', 'constraint_hints'))
     # ---- the two flag maps
     relaxed_l = root_local(body, agg_field_operand(ss, 'feasible_relaxed'))
@@ -89,7 +91,7 @@ def evaluate_samples_rules(ctx, body):
         if not (its.has_call(r'impl v1::Samples>::ids') and 2 in its.params) or restricting(ctx, body, lo): continue
         for c in flag_ins:
             if c.bb in lo[4] and root_local(body, c.args[0]) == relaxed_l and is_const(body, c.args[2], 'true') \
-                    and lo[0].dst['l'] in ctx.S.slice_operand(body, c.args[1]).locals and T.must_pass(body, lo[2], {lo[1]}, {c.bb}):
+                    and lo[0].dst['l'] in ctx.S.slice_operand(body, c.args[1]).locals and must_pass_sem(ctx, body, lo[2], {lo[1]}, {c.bb}):
                 init_ins.append(c)
     fresh = any(k == 'call' and re.search(r'HashMap::<.*>::(new|with_capacity)$|as std::default::Default>::default$', d['r'] or d['f']) for k, bi, d in body.defs_of(relaxed_l))
     ctx.check(bool(init_ins) and fresh, 'C06.keys/relaxed-from-sample-ids', 'T-CARRY', body.name, 'feasible_relaxed is not initialised as {id: true for id in samples.ids()}', body.site())
@@ -120,7 +122,7 @@ def evaluate_samples_rules(ctx, body):
         for c in ps:
             s = ctx.S.slice_operand(body, c.args[1])
             ctx.check(any(e in s.call_objs for e in ev), R + '/%s/push-is-result' % field, 'T-CARRY', body.name, 'pushed value is not the evaluation result', body.site(c.bb))
-        ctx.check(all(body.dominates(header, e) for e in body.strict_ok_exits()), R + '/%s/dominates' % field, 'T-MUSTCALL', body.name, 'loop does not dominate the Ok-exit', body.site(nextc.bb))
+        ctx.check(dominates_ok(ctx, body, header), R + '/%s/dominates' % field, 'T-MUSTCALL', body.name, 'loop does not dominate the Ok-exit', body.site(nextc.bb))
         # feasibility of this list goes into the right map, with the tolerance; only `false` is written, only for infeasible samples
         fc = [c for c in body.calls if c.bb in blocks and c.item == 'is_feasible' and c.path.endswith('SampledConstraint>::is_feasible')]
         ctx.check(bool(fc), R + '/%s/is_feasible' % field, 'T-LOOPMUST', body.name, 'no is_feasible test in the loop', body.site(nextc.bb))
@@ -149,9 +151,9 @@ def evaluate_samples_rules(ctx, body):
     ctx.check(bool(pushes) and not stray_p and not stray_i, R + '/two-lists', 'T-LOOPMUST', body.name, 'pushes / flag updates outside the two evaluation loops: %d / %d' % (len(stray_p), len(stray_i)), body.site())
     if 'constraints' in loops and clone:
         lo = loops['constraints']
-        ctx.check(clone[0].bb not in lo[4] and body.dominates(lo[1], clone[0].bb), 'C06.keys/feasible-cloned-after-active-loop', 'T-BRANCHFX', body.name, 'feasible is not cloned after the active-constraint loop', body.site(clone[0].bb))
+        ctx.check(clone[0].bb not in lo[4] and dominates_sem(ctx, body, lo[1], clone[0].bb), 'C06.keys/feasible-cloned-after-active-loop', 'T-BRANCHFX', body.name, 'feasible is not cloned after the active-constraint loop', body.site(clone[0].bb))
         if 'removed_constraints' in loops:
-            ctx.check(body.dominates(clone[0].bb, loops['removed_constraints'][1]), 'C06.keys/feasible-cloned-before-removed-loop', 'T-BRANCHFX', body.name, 'feasible is cloned after the removed loop', body.site(clone[0].bb))
+            ctx.check(dominates_sem(ctx, body, clone[0].bb, loops['removed_constraints'][1]), 'C06.keys/feasible-cloned-before-removed-loop', 'T-BRANCHFX', body.name, 'feasible is cloned after the removed loop', body.site(clone[0].bb))
     cs = carry_field(ctx, R + '/constraints-field', body, ss, 'constraints', need_fields=[(INST, 'constraints'), (INST, 'removed_constraints')], site=body.site(sbi))
     if cs is not None:
         ctx.check(all(p in cs.call_objs for p in pushes), R + '/constraints-field-is-the-list', 'T-CARRY', body.name, 'SampleSet.constraints is not the list both loops push to', body.site(sbi))
@@ -188,11 +190,11 @@ def evaluate_samples_rules(ctx, body):
             if T.expr_has_call(vex, 'nearest_to_zero') and any(CONV_DV.search(x[2]) for x in T.expr_calls(vex)) and inner and keyed:
                 il = inner[0]
                 okfill = il[0].dst['l'] in ctx.S.slice_operand(body, a['value']).locals and il[0].dst['l'] in ctx.S.slice_operand(body, a['key']).locals \
-                         and T.must_pass(body, some_bb, {header}, {il[1]}) and (not ed or body.dominates(ed[0].bb, il[1])) and not restricting(ctx, body, il)
+                         and must_pass_sem(ctx, body, some_bb, {header}, {il[1]}) and (not ed or dominates_sem(ctx, body, ed[0].bb, il[1])) and not restricting(ctx, body, il)
         ctx.check(okfill, 'C06.sibling/fill-nearest_to_zero', 'T-SIBLING', body.name,
                   'omitted irrelevant variables are not completed with Bound::nearest_to_zero for every state, after its dependencies (Instance::evaluate does this)', body.site(nextc.bb))
         for c in tr:
-            ctx.check(body.dominates(none_bb, c.bb) and c.bb not in blocks, 'C06.sibling/transpose-after-completion', 'T-MUSTCALL', body.name, 'values are transposed before the states are completed', body.site(c.bb))
+            ctx.check(dominates_sem(ctx, body, none_bb, c.bb) and c.bb not in blocks, 'C06.sibling/transpose-after-completion', 'T-MUSTCALL', body.name, 'values are transposed before the states are completed', body.site(c.bb))
             ctx.check(root_local(body, c.args[0]) == root_local(body, [x for x in body.calls if x.item == 'states_mut'][0].args[0]), 'C06.sibling/transpose-same-samples', 'T-CARRY', body.name, 'transpose is applied to other samples than the completed ones', body.site(c.bb))
     ctx.check(len(tr) == 1, 'C06.sibling/transpose', 'T-MUSTCALL', body.name, 'expected one transpose, found %d' % len(tr), body.site())
     # per-variable samples: transposed.remove(&d.id) with the variable itself (the aggregate sits in the loop of the normal form,
@@ -215,14 +217,120 @@ def evaluate_samples_rules(ctx, body):
     if not found: ctx.bad(R + '/decision_variables/keyed-by-own-id', 'T-CARRY', body.name, 'no SampledDecisionVariable is built', body.site())
 
 
+KERNELS = (('Function', 'v1::Function'), ('Linear', 'v1::Linear'), ('Quadratic', 'v1::Quadratic'), ('Polynomial', 'v1::Polynomial'))
+SET_ADD = re.compile(r'(BTreeSet|HashSet)::<.*>::(append|insert|extend)$|as std::iter::Extend<.*>>::extend')
+
+
+def closure_of(ctx, body, operand, depth=6):
+    """(closure body, captured operands) of an operand that holds a closure created in `body` (directly, bound to a name first,
+    or passed as `&mut f`)"""
+    if operand['k'] not in ('copy', 'move') or depth < 0: return None, []
+    if [p for p in operand['pl']['p'] if p != '*']: return None, []
+    defs = body.defs_of(operand['pl']['l'])
+    if len(defs) != 1 or defs[0][0] != 'stmt' or defs[0][2]['dst']['p']: return None, []
+    rv = defs[0][2]['rv']
+    if rv['k'] == 'agg' and rv['adt'].startswith('closure:'): return ctx.F.bodies.get(rv['adt'][8:]), rv['ops']
+    if rv['k'] == 'use': return closure_of(ctx, body, rv['ops'][0], depth - 1)
+    if rv['k'] == 'ref': return closure_of(ctx, body, {'k': 'copy', 'pl': rv['pl']}, depth - 1)
+    return None, []
+
+
+def per_state_closure(ctx, parent, mapcall, ty):
+    """Does the closure handed to `samples.map(..)` compute, for the state it is given, `.0` of `<ty as Evaluate>::evaluate(self, state)`
+    with the parent's own self, on each of its successful returns?  -> (closure, the evaluate call) or (closure, None)"""
+    K, caps = closure_of(ctx, parent, mapcall.args[1]) if len(mapcall.args) == 2 else (None, [])
+    if K is None: return None, None
+    for c in K.calls:
+        if c.item != 'evaluate' or not (c.trait or '').endswith('Evaluate') or not re.search(re.escape(ty) + '$', c.self_ty or ''): continue
+        fs, root, calls = T.access_path(K, c.args[0])
+        if root != 1 or len(fs) != 1 or not fs[0][1].isdigit() or int(fs[0][1]) >= len(caps): continue
+        cfs, croot, ccalls = T.access_path(parent, caps[int(fs[0][1])])
+        if croot != 1 or cfs: continue                                           # the parent's self, not a part of it
+        sfs, sroot, scalls = T.access_path(K, c.args[1])
+        if sroot != 2 or sfs: continue                                           # the state handed to the closure
+        rets = [(e, k, rs) for e, k, rs in K.ret_assignments() if k in ('ok', 'val', 'callval')]
+        good = bool(rets)
+        for e, k, rs in rets:
+            if k != 'ok': good = False; continue
+            ex = T.expr(K, rs['rv']['ops'][0], depth=14)
+            has = any(x[0] == 'call' and x[1] == 'evaluate' and len(x) > 4 and x[4] == c.bb for x in T.expr_walk(ex))
+            good = good and has and T.own_fields(ex)[-1:] == [('tuple', '0')]
+        if good: return K, c
+    return K, None
+
+
+def delegated_samples_call(ctx, b, e):
+    """the `<P as Evaluate>::evaluate_samples(part of self, samples)` call inside an expression, if any"""
+    for x in T.expr_walk(e):
+        if x[0] == 'call' and x[1] == 'evaluate_samples' and len(x) > 4:
+            c = [c for c in b.calls if c.bb == x[4]]
+            if not c: continue
+            c = c[0]
+            if not (c.trait or '').endswith('Evaluate') or not any(re.search(re.escape(t) + '$', c.self_ty or '') for n, t in KERNELS): continue
+            fs, root, calls = T.access_path(b, c.args[0])
+            if root == 1 and T.access_path(b, c.args[1])[1] == 2: return c
+    return None
+
+
+def kernel_rules(ctx):
+    """evaluate_samples of a function (kernel) agrees with evaluating each state alone: on EVERY successful return the value table is
+    `samples.map(|state| self.evaluate(state).0)` -- or the evaluate_samples of a payload of self (per-arm delegation) -- and the used
+    ids are the union of what those evaluations used.  A second success exit (a "fast path") that builds the table otherwise is the
+    defect of seed C06-4."""
+    for nm, ty in KERNELS:
+        R = 'C06.kernel/%s::evaluate_samples' % nm
+        b = ctx.method(R + '/anchor', ty, 'evaluate_samples', trait='Evaluate')
+        if b is None: continue
+        exits = [(e, k, rst) for e, k, rst in b.ret_assignments() if k in ('ok', 'val', 'callval')]
+        vbad = []; ibad = []; pbad = []; maps = []
+        for e, k, rst in exits:
+            if k == 'callval':
+                # `arm => payload.evaluate_samples(samples)` returned as it is
+                c = [c for c in b.calls if c.bb == e]
+                d = delegated_samples_call(ctx, b, ('call', 'evaluate_samples', '', [], e)) if c and c[0].item == 'evaluate_samples' else None
+                if d is None: vbad.append((e, 'returns the result of %s' % (c[0].name[:60] if c else '?')))
+                continue
+            ops = None
+            if k == 'ok':
+                te = rst['rv']['ops'][0]
+                if te['k'] in ('copy', 'move') and not te['pl']['p']:
+                    ds = [d for kk, bb, d in b.defs_of(te['pl']['l']) if kk == 'stmt' and d['rv']['k'] == 'agg' and d['rv']['adt'] == 'tuple' and len(d['rv']['ops']) == 2]
+                    if len(ds) == 1 and len(b.defs_of(te['pl']['l'])) == 1: ops = ds[0]['rv']['ops']
+            if ops is None: vbad.append((e, 'result is not a (values, ids) pair built here')); continue
+            hs, leaves = origins(b, ops[0])
+            ids_slice = ctx.S.slice_operand(b, ops[1])
+            if not leaves: vbad.append((e, 'no source'))
+            for kind, bi, obj in leaves:
+                if kind == 'call' and obj.item == 'map' and obj.path.endswith('Samples>::map') and T.access_path(b, obj.args[0])[1] == 2:
+                    K, ev = per_state_closure(ctx, b, obj, ty)
+                    if ev is None: pbad.append((bi, 'the closure given to samples.map does not return `.0` of self.evaluate(state)')); continue
+                    maps.append((obj, K, ev))
+                    adds = [x for x in K.calls if SET_ADD.search(T.strip_generics_tail(x.name)) and T.access_path(K, x.args[0])[1] == 1 and len(x.args) > 1 and ev in ctx.S.slice_operand(K, x.args[1]).call_objs]
+                    if K.name not in ids_slice.closures or not adds: ibad.append((e, 'used ids do not collect what self.evaluate(state) used'))
+                elif kind == 'place' and delegated_samples_call(ctx, b, obj) is not None and T.own_fields(obj)[-1:] == [('tuple', '0')]:
+                    d = delegated_samples_call(ctx, b, obj)
+                    if d not in ids_slice.call_objs: ibad.append((e, 'used ids do not come from the delegated evaluate_samples'))
+                else:
+                    vbad.append((bi, 'value table from %s' % (obj.name[:70] if kind == 'call' else kind)))
+        ctx.check(bool(exits) and not vbad, R + '/values', 'T-SIBLING', b.name, 'a successful return does not hand back samples.map(|state| self.evaluate(state)): %s' % (vbad[:2],), b.site(vbad[0][0]) if vbad else b.site())
+        ctx.check(not pbad, R + '/per-state', 'T-CARRY', b.name, '%s' % (pbad[:2],), b.site(pbad[0][0]) if pbad else b.site())
+        ctx.check(bool(exits) and not ibad, R + '/used-ids', 'T-CARRY', b.name, '%s' % (ibad[:2],), b.site(ibad[0][0]) if ibad else b.site())
+        seen = set()
+        for obj, K, ev in maps:
+            if K.name in seen: continue
+            seen.add(K.name); ctx.fn(K)
+            error_propagates(ctx, R + '/per-state/error', K, [ev], 'evaluation of one state')
+        error_propagates(ctx, R + '/error', b, [obj for obj, K, ev in maps], 'samples.map')
+
+
 def constraint_rules(ctx):
     R = 'C06.constraint'
     # Constraint::evaluate_samples
     b = ctx.method(R + '/evaluate_samples/anchor', CON, 'evaluate_samples', trait='Evaluate')
     if b is not None:
-        aggs = find_aggregates(b, SC)
-        ctx.check(len(aggs) == 1, R + '/evaluate_samples/aggregate', 'T-CARRY', b.name, 'expected one SampledConstraint aggregate', b.site())
-        for bi, st in aggs:
+        sv = returned_struct(ctx, b, SC)
+        ctx.check(sv is not None, R + '/evaluate_samples/aggregate', 'T-CARRY', b.name, 'the SampledConstraint returned on success is not one recognisable value', b.site())
+        for bi, st in ([(sv.where, sv.st())] if sv is not None else []):
             for f in ('id', 'equality', 'name', 'subscripts', 'parameters', 'description'):
                 fs, root, calls = T.access_path(b, agg_field_operand(st, f))
                 ctx.check(root == 1 and fs == [(CON, f)], R + '/evaluate_samples/carry/' + f, 'T-CARRY', b.name, 'SampledConstraint.%s is not self.%s' % (f, f), b.site(bi))
@@ -232,6 +340,8 @@ def constraint_rules(ctx):
             fs_ = slice_op(ctx, b, agg_field_operand(st, 'feasible'))
             ctx.check(fs_.has_call(r'impl v1::SampledValues>::iter') and fs_.has_call('v1::Function as evaluate::Evaluate>::evaluate_samples'),
                       R + '/evaluate_samples/feasible-from-values', 'T-CARRY', b.name, 'per-sample feasibility does not derive from the evaluated values', b.site(bi))
+            uop = agg_field_operand(st, 'used_decision_variable_ids')
+            ctx.check(uop is not None and slice_op(ctx, b, uop).has_call('v1::Function as evaluate::Evaluate>::evaluate_samples'), R + '/evaluate_samples/used-ids', 'T-CARRY', b.name, 'used ids do not come from the function evaluation', b.site(bi))
             rr = T.expr(b, agg_field_operand(st, 'removed_reason'))
             ctx.check(rr[0] == 'agg' and rr[1].endswith('Option::None'), R + '/evaluate_samples/no-reason', 'T-CONST', b.name, 'active constraint gets a removal reason', b.site(bi))
         error_propagates(ctx, R + '/evaluate_samples/error', b, [c for c in b.calls if c.item == 'evaluate_samples'], 'function evaluation')
@@ -259,18 +369,22 @@ def constraint_rules(ctx):
     b = ctx.method(R + '/removed/anchor', RC, 'evaluate_samples', trait='Evaluate')
     if b is not None:
         ce = [c for c in b.calls if c.item == 'evaluate_samples' and re.search(r'<v1::Constraint as evaluate::Evaluate>::evaluate_samples', c.name)]
-        ctx.check(len(ce) == 1, R + '/removed/delegates', 'T-MUSTCALL', b.name, 'does not evaluate the wrapped constraint', b.site())
+        ctx.check(len(ce) >= 1, R + '/removed/delegates', 'T-MUSTCALL', b.name, 'does not evaluate the wrapped constraint', b.site())
         for c in ce:
             ctx.check((RC, 'constraint') in T.access_path(b, c.args[0])[0] and T.access_path(b, c.args[1])[1] == 2, R + '/removed/args', 'T-CARRY', b.name, 'not (self.constraint, samples)', b.site(c.bb))
             error_propagates(ctx, R + '/removed/error', b, [c], 'constraint evaluation')
+        # the returned SampledConstraint: the two removal fields from self, every other field the wrapped constraint's
+        #   `out.f = x; Ok((out, ids))`  ==  `Ok((SampledConstraint { f: x, ..out }, ids))`
+        sv = returned_struct(ctx, b, SC)
         for f in ('removed_reason', 'removed_reason_parameters'):
-            ws = [(bi, st) for bi, st in b.stmts() if st['dst']['p'] and fields_of_place(st['dst'])[-1:] == [(SC, f)]]
+            op = sv.fields.get(f) if sv is not None else None
             ok = False
-            for bi, st in ws:
-                ex = T.expr(b, st['rv']['ops'][0])
-                if (RC, f) in T.expr_fields(ex) and all(b.dominates(bi, e) for e in b.strict_ok_exits()):
-                    ok = f != 'removed_reason' or (ex[0] == 'agg' and ex[1].endswith('Option::Some'))
+            if op is not None:
+                ex = T.expr(b, op)
+                ok = (RC, f) in T.expr_fields(ex) and (f != 'removed_reason' or (ex[0] == 'agg' and ex[1].endswith('Option::Some')))
             ctx.check(ok, R + '/removed/' + f, 'T-CARRY', b.name, 'SampledConstraint.%s is not set from self.%s' % (f, f), b.site())
+        bad = inherited_from(ctx, b, sv, ce, ('removed_reason', 'removed_reason_parameters')) if sv is not None else ['?']
+        ctx.check(not bad, R + '/removed/returns-it', 'T-CARRY', b.name, 'returned value is not the sampled constraint in its fields %s' % bad, b.site())
     # SampledConstraint::is_feasible (second copy of the rule)
     b = ctx.method('C06.rule/SampledConstraint::is_feasible/anchor', SC, 'is_feasible')
     if b is not None:
@@ -280,9 +394,9 @@ def constraint_rules(ctx):
     # SampledConstraint::get
     b = ctx.method(R + '/get/anchor', SC, 'get')
     if b is not None:
-        aggs = find_aggregates(b, EC)
-        ctx.check(len(aggs) == 1, R + '/get/aggregate', 'T-CARRY', b.name, 'expected one EvaluatedConstraint aggregate', b.site())
-        for bi, st in aggs:
+        sv = returned_struct(ctx, b, EC)
+        ctx.check(sv is not None, R + '/get/aggregate', 'T-CARRY', b.name, 'the EvaluatedConstraint returned on success is not one recognisable value', b.site())
+        for bi, st in ([(sv.where, sv.st())] if sv is not None else []):
             for f in ('id', 'equality', 'used_decision_variable_ids', 'name', 'subscripts', 'parameters', 'description', 'removed_reason', 'removed_reason_parameters'):
                 fs, root, calls = T.access_path(b, agg_field_operand(st, f))
                 ctx.check(root == 1 and fs == [(SC, f)], R + '/get/carry/' + f, 'T-CARRY', b.name, 'EvaluatedConstraint.%s is not self.%s (%s)' % (f, f, fs), b.site(bi))
@@ -319,9 +433,9 @@ def get_rules(ctx):
     b = ctx.method(R + '/anchor', SS, 'get')
     if b is None: return
     cover(ctx, 'C06.cover/SampleSet::get', b, SS, exempt=('sense',))
-    aggs = find_aggregates(b, 'v1::Solution')
-    ctx.check(len(aggs) == 1, R + '/aggregate', 'T-CARRY', b.name, 'expected one Solution aggregate', b.site())
-    for bi, st in aggs:
+    sv = returned_struct(ctx, b, 'v1::Solution')
+    ctx.check(sv is not None, R + '/aggregate', 'T-CARRY', b.name, 'the Solution returned on success is not one recognisable value', b.site())
+    for bi, st in ([(sv.where, sv.st())] if sv is not None else []):
         # objective <- objectives.get(sample_id)
         ex = T.expr(b, agg_field_operand(st, 'objective'), depth=14)
         gets = [x for x in T.expr_walk(ex) if x[0] == 'call' and x[1] == 'get' and 'SampledValues' in x[2]]
@@ -379,7 +493,7 @@ def get_rules(ctx):
         via = {c.bb for c in ins}
         none_sides = [none_t for sb, some_t, none_t in tests]
         ctx.check(bool(tests) and T.must_pass(b, some_bb, errs, via) is False and all(bool(b.reach([n], stop={header}) & errs) for n in none_sides), R + '/state/missing-is-error', 'T-ERRFLOW', b.name, 'a variable without any value is not an error', b.site(nextc.bb))
-        ctx.check(bool(ins) and T.must_pass(b, some_bb, {header}, via), R + '/state/every-variable', 'T-LOOPMUST', b.name, 'a variable can be skipped without a value', b.site(nextc.bb))
+        ctx.check(bool(ins) and must_pass_sem(ctx, b, some_bb, {header}, via), R + '/state/every-variable', 'T-LOOPMUST', b.name, 'a variable can be skipped without a value', b.site(nextc.bb))
 
 
 def entry_base(e, adt, field):
@@ -484,30 +598,54 @@ def compress_rules(ctx):
         restr = sorted({x.item for x in s.call_objs if x.item in RESTRICTING and 'Iterator' in (x.trait or '')})
         ctx.check(s.has_field('v1::Samples', 'entries') and s.has_field('v1::samples::SamplesEntry', 'ids') and not restr, R + '/ids/all', 'T-CARRY', b.name, 'ids() does not enumerate the ids of every entry', b.site())
     b = ctx.method(R + '/transpose/anchor', 'v1::Samples', 'transpose')
-    if b is not None:
-        pu = [c for c in b.calls if c.item == 'push' and 'Vec::<u64>::push' in c.name]
-        ctx.check(len(pu) == 1, R + '/transpose/push', 'T-LOOPMUST', b.name, 'expected one push of the sample id', b.site())
-        for c in pu:
-            rs = ctx.S.slice_operand(b, c.args[0]); vs = ctx.S.slice_operand(b, c.args[1])
-            loops = T.for_loops(b)
-            inner = [l for l in loops if ctx.S.slice_operand(b, l[0].args[0]).has_field('v1::State', 'entries') and c.bb in l[4]]
-            outer = [l for l in loops if c.bb in l[4] and l not in inner and ctx.S.slice_operand(b, l[0].args[0]).has_call(r'impl v1::Samples>::iter')]
-            ok = len(outer) == 1 and len(inner) == 1 and c.bb in outer[0][4]
-            if ok:
-                ents = [x for x in rs.call_objs if x.item == 'entry']
-                keys = [T.expr(b, x.args[1]) for x in ents]
-                ok = len(ents) == 2 and inner[0][0].dst['l'] in rs.locals and outer[0][0].dst['l'] in vs.locals and inner[0][0].dst['l'] not in vs.locals
-                ok = ok and any(T.expr_has_call(k, 'OrderedFloat') or (k[0] == 'agg' and 'OrderedFloat' in k[1]) for k in keys)
-                loop_must(ctx, R + '/transpose/every-value', b, inner[0], lambda x: x is c, 'push(sample_id)')
-            ctx.check(ok, R + '/transpose/keyed', 'T-CARRY', b.name, 'sample id is not pushed under (variable id, value) of the same state entry', b.site(c.bb))
+    if b is not None: transpose_rules(ctx, R, b)
+
+
+def transpose_rules(ctx, R, b):
+    """Samples::transpose: for every entry, every sample id s of it and every (d, v) of ITS state:  result[d][OrderedFloat(v)].push(s).
+    Phrased on the nest of loops around the push, whatever produces the (id, state) pairs: the helper iterator `self.iter()`
+    (one loop over pairs) or explicit loops over self.entries / entry.ids; the two map lookups chained or split into statements."""
+    ENT = 'v1::samples::SamplesEntry'
+    pu = [c for c in b.calls if c.item == 'push' and 'Vec::<u64>::push' in c.name]
+    ctx.check(len(pu) >= 1, R + '/transpose/push', 'T-LOOPMUST', b.name, 'no push of a sample id', b.site())
+    for c in pu[:1]:
+        rs = ctx.S.slice_operand(b, c.args[0]); vs = ctx.S.slice_operand(b, c.args[1])
+        chain = sorted([l for l in T.for_loops(b) if c.bb in l[4]], key=lambda l: -len(l[4]))         # outermost first
+        its = [ctx.S.slice_operand(b, l[0].args[0]) for l in chain]
+        ok = len(chain) >= 2
+        why = []
+        if ok:
+            inner = chain[-1]; outer = chain[:-1]
+            # the innermost loop walks the (variable id, value) pairs of a state; the loops around it walk all entries and all their ids
+            if not its[-1].has_field('v1::State', 'entries'): why.append('innermost loop is not over state.entries')
+            allf = lambda a, f: any(x.has_field(a, f) for x in its) or vs.has_field(a, f)
+            for a, f in (('v1::Samples', 'entries'), (ENT, 'ids'), (ENT, 'state')):
+                if not allf(a, f): why.append('no loop over %s.%s' % (a.split('::')[-1], f))
+            # the pushed value is a sample id of the entry: from an enclosing loop, not from the state pair
+            if not (vs.has_field(ENT, 'ids') and any(l[0].dst['l'] in vs.locals for l in outer) and inner[0].dst['l'] not in vs.locals): why.append('pushed value is not the sample id')
+            # ... of the SAME entry whose state is walked: id and state hang on the item of one common loop
+            if not any(l[0].dst['l'] in vs.locals and l[0].dst['l'] in its[-1].locals for l in outer): why.append('sample id and state do not belong to the same entry')
+            # keyed by (variable id, value) of this pair: two map lookups (chained or one after the other), one of them under OrderedFloat(value)
+            ents = [x for x in rs.call_objs if x.item == 'entry']
+            keys = [T.expr(b, x.args[1]) for x in ents]
+            if not (len(ents) == 2 and inner[0].dst['l'] in rs.locals and all(inner[0].dst['l'] in ctx.S.slice_operand(b, x.args[1]).locals for x in ents)
+                    and any(T.expr_has_call(k, 'OrderedFloat') or (k[0] == 'agg' and 'OrderedFloat' in k[1]) for k in keys)): why.append('not filed under (variable id, OrderedFloat(value)) of the pair')
+            # nothing is skipped: each loop of the nest reaches the next one (the innermost the push) in every iteration, no restricted iterator
+            for l, nxt in zip(chain, chain[1:]):
+                if not must_pass_sem(ctx, b, l[2], {l[1]}, {nxt[1]}): why.append('an iteration can skip the inner loop')
+            restr = sorted({x for l in chain for x in restricting(ctx, b, l)})
+            if restr: why.append('iterator restricted by %s' % restr)
+            loop_must(ctx, R + '/transpose/every-value', b, inner, lambda x: x is c, 'push(sample_id)')
+        ctx.check(ok and not why, R + '/transpose/keyed', 'T-CARRY', b.name, 'sample id is not pushed under (variable id, value) of the same state entry: %s' % ('; '.join(why) or 'no loop nest'), b.site(c.bb))
 
 
 def check(ctx):
     body = ctx.method('C06.anchor/Instance::evaluate_samples', INST, 'evaluate_samples', trait='Evaluate')
     if body is not None: evaluate_samples_rules(ctx, body)
+    kernel_rules(ctx)
     constraint_rules(ctx)
     get_rules(ctx)
     compress_rules(ctx)
     # floors = decided instances per family on the pinned tree
-    ctx.floor('C06.samples', 50); ctx.floor('C06.keys', 4); ctx.floor('C06.sibling', 10); ctx.floor('C06.constraint', 29); ctx.floor('C06.rule', 15)
-    ctx.floor('C06.get', 16); ctx.floor('C06.compress', 11); ctx.floor('C06.cover', 22)
+    ctx.floor('C06.samples', 50); ctx.floor('C06.keys', 4); ctx.floor('C06.sibling', 10); ctx.floor('C06.constraint', 31); ctx.floor('C06.rule', 15)
+    ctx.floor('C06.kernel', 20); ctx.floor('C06.get', 16); ctx.floor('C06.compress', 11); ctx.floor('C06.cover', 22)
